@@ -92,20 +92,20 @@ func float128Oracle[T fixed.Dx](mult int64, op, arg string) string {
 	switch op {
 	case "fromf64":
 		x := parseF64(arg)
-		return judgeFrom(i128Big(f128.VerifC03Raw(f128.From[T](x))), new(big.Rat).SetFloat64(x), mult, 52)
+		return judgeFrom(raw128(f128.From[T](x)), new(big.Rat).SetFloat64(x), mult, 52)
 	case "fromf32":
 		x := parseF32(arg)
-		return judgeFrom(i128Big(f128.VerifC03Raw(f128.From[T](x))), new(big.Rat).SetFloat64(float64(x)), mult, 23)
+		return judgeFrom(raw128(f128.From[T](x)), new(big.Rat).SetFloat64(float64(x)), mult, 23)
 	case "asf64":
-		raw := toI128(arg)
-		return judgeAs(f128.As[T, float64](f128.VerifC03FromRaw[T](raw)), i128Big(raw), mult, 52)
+		raw := wrapTo(parseBig(arg), 128)
+		return judgeAs(f128.As[T, float64](mk128[T](raw)), raw, mult, 52)
 	case "asf32":
-		raw := toI128(arg)
-		y := f128.As[T, float32](f128.VerifC03FromRaw[T](raw))
+		raw := wrapTo(parseBig(arg), 128)
+		y := f128.As[T, float32](mk128[T](raw))
 		if math.IsInf(float64(y), 0) { // beyond the float32 range: outside "representable"
 			return "ok inf32"
 		}
-		return judgeAs(float64(y), i128Big(raw), mult, 23)
+		return judgeAs(float64(y), raw, mult, 23)
 	}
 	return "FAIL bad-op"
 }
